@@ -25,7 +25,7 @@ CHANNEL_TABLE = {
     (T + '::incoming_packet', 'payload-branch'): 'a peer sends nothing after its EOF and control packets are neither dropped nor reordered on a route, so payload/EOF reach a socket only while its channel is attached; once detached (close) the forwarder drops them',
     (T + '::send_packet', 'via ' + T + '::incoming_packet'): 'resend from the ACK branch: an ACK arrives only for a segment in flight on an attached channel (same invariant)',
 }
-SIM_LIFETIME = {'sim::queue': 'queues are owned by the configuration and live as long as the simulation; their timer completions never outlive them'}
+SIM_LIFETIME = {}     # (was: sim::queue "owned by the configuration" - a configuration may create a queue per connection and keep no reference)
 
 
 def check(run):
@@ -94,10 +94,15 @@ def check(run):
             if t.cls in SIM_LIFETIME:
                 run.ok('R15', 'timer-this', construct, fn.loc(node), 'tabled: ' + SIM_LIFETIME[t.cls], nontrivial=False)
                 continue
-            mem = [n for n in t.all_nodes() if n['k'] == 'member' and n.get('mk') == 'field' and q.is_this(q.access_root(n))]
-            ok = bool(mem) and all(any('operation_aborted' in q.render(t, at) and not p for at, p in q.guards_at(t, n)) for n in mem)
-            run.check(ok, 'R15', 'timer-this', construct, fn.loc(node), 'the completion touches members on the aborted path (the object may be gone when the cancelled wait is delivered)',
-                      'every member access is dominated by the operation_aborted early return; the member timer is cancelled by its own destructor')
+            # a wait that has already fired has POSTED its completion: neither cancel() nor the destructor of the member timer can
+            # take it back, and it is delivered with success. If another handler of the same round destroys the object first, the
+            # completion runs on freed memory - an operation_aborted early return does not help. The closure therefore has to carry
+            # its own liveness test (a weak_ptr captured next to `this`, tested before the member function is entered).
+            closure = node if node['k'] == 'lambda' else fn.parent(node)
+            ok = q.liveness_guarded(closure) if is_node(closure) else False
+            run.check(ok, 'R15', 'timer-this', construct, fn.loc(node),
+                      'a member function is bound with a raw `this` into a wait on a member timer without a liveness test: once the timer has fired the completion is posted and cannot be revoked; an object destroyed by another handler of the same round (or, for a completion that ignores its error code, at any time while the timer is armed) is then used after free',
+                      'the closure tests a captured weak_ptr before entering the member function')
     if nb < 4:
         run.broke('only %d member functions bound into timer waits found (5 confirmed by hand)' % nb)
     # lambdas to timers capturing this
